@@ -9,8 +9,20 @@ import shutil
 VERIF = os.path.dirname(os.path.dirname(os.path.abspath(__file__)))
 
 
+import sys
+ROUND2 = len(sys.argv) > 1 and sys.argv[1] == 'r2'
+
+
 def newest_results():
     res = {}
+    if ROUND2:
+        for d in ('/tmp/mutres_r2', '/tmp/mutres_r2b', '/tmp/mutres_r2c'):
+            for f in sorted(glob.glob(d + '/*.json'), key=os.path.getmtime):
+                r = json.load(open(f))
+                e = res.setdefault((r['prop'], str(r['n'])), {})
+                e.setdefault('base', r)
+                e['latest'] = r if not e.get('latest') else dict(r, checks=dict(e['latest'].get('checks', {}), **r.get('checks', {})))
+        return res
     files = sorted(glob.glob('/tmp/mutres/*.json'), key=os.path.getmtime)
     for f in files:
         r = json.load(open(f))
@@ -28,10 +40,10 @@ def main():
     for (prop, n), rr in sorted(res.items()):
         r = rr.get('latest') or rr.get('base')
         base = rr.get('base') or r
-        out = '/tmp/mut_%s_out' % prop
+        out = ('/tmp/mut2_%s_out' if ROUND2 else '/tmp/mut_%s_out') % prop
         if r.get('apply', 'ok') != 'ok' or 'passed' not in r.get('tests', '') or r.get('demo_mutant_rc') != 1 or r.get('demo_clean_rc') != 0:
             continue        # not confirmed: keep nothing
-        d = os.path.join(VERIF, 'seeded', '%s-%s' % (prop, n))
+        d = os.path.join(VERIF, 'seeded', ('%s-r2-%s' if ROUND2 else '%s-%s') % (prop, n))
         os.makedirs(d, exist_ok=True)
         shutil.copy(os.path.join(out, 'patch%s.diff' % n), os.path.join(d, 'patch.diff'))
         shutil.copy(os.path.join(out, 'demo%s.py' % n), os.path.join(d, 'demo.py'))
@@ -45,6 +57,8 @@ def main():
                 checks[c] = {'exit': v['rc'], 'wall_s': v['wall'],
                              'signatures': [l.strip()[:200] for l in v['lines'] if 'signature' in l or 'INCONCLUSIVE' in l][:3]}
         first = {c: v['rc'] for c, v in base.get('checks', {}).items()}
+        if ROUND2:
+            meta_first = sorted(c for c, rc in first.items() if rc == 1)
         meta = {
             'breaks_property': prop,
             'origin': 'independent sub-agent given only the property text and a scratch worktree',
@@ -55,11 +69,11 @@ def main():
                                  'PYTHONPATH=<tree> /venv/bin/python demo.py'},
             'checks_run': {c: v for c, v in checks.items()},
             'detected_by': sorted(c for c, v in checks.items() if v['exit'] == 1),
-            'detected_in_first_round': sorted(c for c, rc in first.items() if rc == 1),
+            'detected_before_strengthening': sorted(c for c, rc in first.items() if rc == 1),
         }
         with open(os.path.join(d, 'meta.json'), 'w') as f:
             json.dump(meta, f, indent=1)
-        print(prop, n, 'detected by', meta['detected_by'], '(first round: %s)' % meta['detected_in_first_round'])
+        print(prop, n, 'detected by', meta['detected_by'], '(before strengthening: %s)' % meta['detected_before_strengthening'])
 
 
 if __name__ == '__main__':
